@@ -66,7 +66,8 @@ WARNINGS = {
 TEMPLATES = ['error diagnostic (1..4 per file)', 'quoted source line + caret', 'warning diagnostic',
              'note / classpath warning / tool banner', 'error-count summary',
              'files reported in any order', 'one file reported in non-adjacent blocks',
-             'compiler-internal stack trace', 'groovy StackOverflowError form',
+             'compiler-internal stack trace (alone, or after / before / between complete diagnostic blocks)',
+             'groovy StackOverflowError form',
              'symbol/location continuation lines (javac)', 'explanation lines (scalac)']
 
 CRASHES = {
@@ -130,9 +131,12 @@ def source_line(path, line, rnd):
     return '    %s %s = %s;' % (rnd.choice(NAMES), rnd.choice(IDS), rnd.choice(IDS))
 
 
-def render(lang, truth, rnd, noise=0.0, crash=None, interleave=False):
+def render(lang, truth, rnd, noise=0.0, crash=None, interleave=False, crash_pos=None):
     """truth: ordered dict/list of (path, [messages]).  Returns the compiler's text.
-    `crash`: None | 'trace' | 'so' (groovy StackOverflowError form)."""
+    `crash`: None | 'trace' | 'so' (groovy StackOverflowError form).
+    `crash_pos` (trace form only): None = the trace alone; 'after' / 'before' / 'middle' = the
+    compiler had already printed (goes on printing) the diagnostics of `truth` when it died --
+    the trace stands after / before / between complete diagnostic blocks."""
     items = list(truth.items()) if isinstance(truth, dict) else list(truth)
     if crash:
         p = items[0][0] if items else '/tmp/tmpabc/src/pkg/Main.java'
@@ -140,7 +144,17 @@ def render(lang, truth, rnd, noise=0.0, crash=None, interleave=False):
         pre = ''
         if rnd.random() < noise and WARNINGS[lang]:
             pre = _warn(lang, p, rnd)
-        return pre + CRASHES[key].format(p=p)
+        trace = CRASHES[key].format(p=p)
+        if crash_pos and key == lang:
+            blocks = _diag_blocks(lang, [(pa, m) for pa, ms in items for m in ms], rnd, 0.0)
+            if blocks:
+                head = ''
+                if lang == 'groovy':
+                    head = ('org.codehaus.groovy.control.MultipleCompilationErrorsException: '
+                            'startup failed:\n')
+                k = {'after': len(blocks), 'before': 0}.get(crash_pos, rnd.randint(1, len(blocks)))
+                return pre + head + ''.join(blocks[:k]) + trace + ''.join(blocks[k:])
+        return pre + trace
     # diagnostics: list of (path, message) blocks, optionally interleaved across files
     blocks = []
     for path, msgs in items:
@@ -163,7 +177,24 @@ def render(lang, truth, rnd, noise=0.0, crash=None, interleave=False):
     if lang == 'groovy' and nerr:
         out.append('org.codehaus.groovy.control.MultipleCompilationErrorsException: '
                    'startup failed:\n')
+    out.extend(_diag_blocks(lang, blocks, rnd, noise))
+    if rnd.random() < noise:
+        out.append(_warn(lang, items[0][0] if items else '/x/src/a/Main.java', rnd))
+    if nerr:
+        if lang == 'java':
+            out.append('%d error%s\n' % (nerr, '' if nerr == 1 else 's'))
+        elif lang == 'groovy':
+            out.append('%d error%s\n\n' % (nerr, '' if nerr == 1 else 's'))
+        elif lang == 'scala':
+            out.append('%d error%s found\n' % (nerr, '' if nerr == 1 else 's'))
+    return ''.join(out)
+
+
+def _diag_blocks(lang, blocks, rnd, noise):
+    """one text block per (path, message) diagnostic, in the compiler's format"""
+    res = []
     for path, m in blocks:
+        out = []
         line = rnd.randint(1, 400)
         col = rnd.randint(1, 80)
         src = source_line(path, line, rnd)
@@ -191,16 +222,8 @@ def render(lang, truth, rnd, noise=0.0, crash=None, interleave=False):
                 head, '-' * max(3, 80 - len(head)), line, src2, ' ' * rnd.randint(0, 20), body))
             if rnd.random() < 0.3:
                 out.append('  |\n  | longer explanation available when compiling with `explain`\n')
-    if rnd.random() < noise:
-        out.append(_warn(lang, items[0][0] if items else '/x/src/a/Main.java', rnd))
-    if nerr:
-        if lang == 'java':
-            out.append('%d error%s\n' % (nerr, '' if nerr == 1 else 's'))
-        elif lang == 'groovy':
-            out.append('%d error%s\n\n' % (nerr, '' if nerr == 1 else 's'))
-        elif lang == 'scala':
-            out.append('%d error%s found\n' % (nerr, '' if nerr == 1 else 's'))
-    return ''.join(out)
+        res.append(''.join(out))
+    return res
 
 
 def _warn(lang, path, rnd):
